@@ -208,6 +208,21 @@ CLAIMS = {
   note="partial: tee / base64 / cat binaries and the kernel tty are the environment; text lines below the 4096-byte tty line limit; "
        "text must not contain the prompt.",
   ref="DESIGN.md section 4 C11"),
+ "C18": dict(
+  text="Theorems C18.run_monitor / run_spec / coop_success / credentials / deadline_linux / deadline_uboot / password_skipped / "
+       "bootlogs (+ 22 more): for EVERY console (any staged, reactive script of timed pieces), configuration (autoboot prompt/keys, "
+       "login delay, no-password timeout, boot timeout, with/without askfirst and U-Boot stage) the model of "
+       "UBootAutobootIntercept/UBootShell._init_shell/boot, AskfirstInitializer, LinuxBootLogin, LinuxUbootConnector and the power "
+       "callbacks produces an event trace accepted by a reference monitor: every write is the one the configuration calls for, made "
+       "at the very tick the awaited text first completed (user name only after the login prompt, password only after the password "
+       "prompt, none when the no-password timeout ran out), a configured boot timeout is never exceeded by more than one poll period "
+       "and fails with TimeoutError, power-off is last, bootlog = text of what was read while the startup event was attached; for "
+       "every cooperative console bring-up succeeds. The monitor is evaluated on the REAL board classes composed on an instrumented "
+       "power-controlled board over a reactive console on the virtual clock.",
+  note="partial: bring-up is modelled up to 'login complete' (the Linux shell hand-shake has no deadline in tbot and is C01's "
+       "subject); real consoles and real time are replaced by the simulated console and the virtual clock; autoboot regexes from "
+       "the modelled subset.",
+  ref="DESIGN.md section 4 C18"),
 }
 
 REASON_TODO = "check not built yet (work in progress; will be claimed once its Lean model, theorems and correspondence harness exist)"
